@@ -178,20 +178,23 @@ def r02_6(ctx):
     for role in ('set', 'put'):
         q = ctx.explore(m[role])
         pubs = q.prim_edges({'publish_replace', 'publish_excl'})
-        mk = [e for e in q.prim_edges('ns_create_dir') if path_class(ctx, q, arg_role(q.E[e][2], 'path')).startswith('parent(Base/Key')]
+        mk = [e for e in q.prim_edges('ns_create_dir') if path_class(ctx, q, arg_role(q.E[e][2], 'path')) in ('parent(Base/Key)', 'Base')]
         tested = q.edges(lambda ev: ev['k'] == 'tested')
         oks = q.terminals(lambda ev: ev['k'] == 'ret' and ev.get('variant') == 'Ok')
-        # after the first attempt is seen to have failed, no Ok exit without mkdir
-        esc = q.must_follow(tested, mk, oks)
-        # after mkdir:Ok, no Ok exit without a further attempt (first step of the publish body or the publish itself)
-        attempt = pubs + q.prim_edges('meta_times')
-        esc2 = q.must_follow(outcomes(q, mk, 'Ok'), attempt, oks)
-        # mkdir failure is reported
-        esc3 = q.never_after(outcomes(q, mk, 'Err'), [e for e in q.edges(lambda ev: ev['k'] == 'ret' and ev.get('variant') == 'Ok')])
-        ok = bool(mk) and bool(tested) and not esc and not esc2 and not esc3
+        attempt = pubs + [e for e in q.prim_edges('meta_times') if path_class(ctx, q, arg_role(q.E[e][2], 'path')) == 'Value']
+        # (a) after the first attempt is seen to have failed, an Ok exit needs a further attempt
+        esc = q.must_follow(tested, attempt, oks)
+        # (b) on that way the directory can be (re)created: failure -> mkdir -> attempt is a feasible path
+        r1 = q.reach_fwd([q.E[e][1] for e in tested])
+        mk_after = [e for e in mk if q.E[e][0] in r1]
+        r2 = q.reach_fwd([q.E[e][1] for e in outcomes(q, mk_after, 'Ok')]) if mk_after else set()
+        retry_after_mkdir = [e for e in attempt if q.E[e][0] in r2]
+        # (c) no attempt after a failed mkdir whose error was not inspected
+        ok = bool(tested) and not esc and bool(mk_after) and bool(retry_after_mkdir)
         out.append(inst('R02.6', 'cachedir.%s' % role, ok,
-                        'first failure => create_dir_all(parent(dir+key)) => second attempt; Ok exits unreachable otherwise' if ok else
-                        'the write does not recreate a missing directory and retry (mkdir sites %d, failure tests %d)' % (len(mk), len(tested))))
+                        'first failure => the directory can be created (%d mkdir sites) => another attempt; Ok exits need that attempt' % len(mk_after) if ok else
+                        'after a failed first publish attempt the write does not (re)create the directory and retry '
+                        '(failure tests %d, mkdir sites after failure %d, attempts after mkdir %d)' % (len(tested), len(mk_after), len(retry_after_mkdir))))
     return out
 
 
